@@ -62,6 +62,18 @@ func init() {
 			return one(And(Ge(Len(s), Len(p)), Eq(Drop(s, Sub(Len(s), Len(p))), p)))
 		})
 	}
+	reg("strings.IndexByte", func(x *Exec, st *State, fr *Frame, in ssa.Instruction, callee *ssa.Function, args []Value) []Value {
+		x.assume("A-BUF")
+		c := x.toInt(args[1].(*Term))
+		if c.Op == "int" && c.Num.Sign() == 0 {
+			return one(Idx0(args[0].(*Term))) // the first NUL: the theory's own observer (as for bytes.IndexByte)
+		}
+		return one(x.sindexFacts(st, args[0].(*Term), U8(c)))
+	})
+	reg("strings.Contains", func(x *Exec, st *State, fr *Frame, in ssa.Instruction, callee *ssa.Function, args []Value) []Value {
+		x.assume("A-BUF")
+		return one(Ge(x.sindexFacts(st, args[0].(*Term), args[1].(*Term)), IntLit(0)))
+	})
 	reg("strings.Index", func(x *Exec, st *State, fr *Frame, in ssa.Instruction, callee *ssa.Function, args []Value) []Value {
 		x.assume("A-BUF")
 		return one(x.sindexFacts(st, args[0].(*Term), args[1].(*Term)))
